@@ -26,13 +26,13 @@ func serverURL(i int) *url.URL {
 	return u
 }
 
-func newSys() *sys {
+func newSys(opts ...roundrobin.LBOption) *sys {
 	s := &sys{}
 	rr, err := roundrobin.New(http.HandlerFunc(func(w http.ResponseWriter, r *http.Request) {
 		s.handler++
 		s.seen = r.URL
 		w.WriteHeader(200)
-	}))
+	}), opts...)
 	if err != nil {
 		panic(err)
 	}
@@ -147,7 +147,7 @@ func model(nservers int, ws []int) *lib.Model[*sys] {
 		}
 	}
 	m := &lib.Model[*sys]{Name: fmt.Sprintf("rr/servers=%d/weights=%v", nservers, ws), Ops: ops, Deadline: lib.Deadline}
-	m.New = newSys
+	m.New = func() *sys { return newSys() }
 	m.Apply = func(s *sys, op int) string {
 		d := desc[op]
 		switch d.kind {
